@@ -67,9 +67,7 @@ theorem onCommit_CP (core : Core) (screen : Option Img) (a : App) : CP a (onComm
     split
     · exact CP_same _ rfl
     · split
-      · split
-        · exact CP_same _ rfl
-        · exact CP_same _ rfl
+      · exact CP_same _ rfl
       · split
         · exact CP_lift (a' := { a with waiter := none }) _ rfl (resume_CP _ _ _)
         · exact CP_same _ rfl
